@@ -1,6 +1,6 @@
 #!/bin/bash
 # Re-runs every kept seeded change against its own property's quick check (after the checks were changed) and lists misses.
-cd /verif
+cd "$(dirname "$(readlink -f "$0")")/.."
 for d in seeded/C*; do
   p=$(basename $d | cut -d- -f1)
   r=$(tools/evalseed.sh $d $p | tail -1)
